@@ -218,9 +218,9 @@ PROPS['C17'] = dict(
     plan={'quick': dict(rc_procs=4, rc_cases=30000, fuzz_procs=3, fuzz_secs=20, enum_shards=11, enum_tier=0),
           'thorough': dict(rc_procs=8, rc_cases=200000, fuzz_procs=8, fuzz_secs=240, enum_shards=11, enum_tier=1)},
     has_enum=True,
-    technique='property-based differential testing against a bit-by-bit reference plus metamorphic relations (reflection, concatenation); rapidcheck tapes + libFuzzer under ASan',
+    technique='property-based differential testing against a bit-by-bit reference plus metamorphic relations (reflection, concatenation); rapidcheck tapes + libFuzzer under ASan + one message beyond 2^32 bytes per routine (enumeration engine)',
     level_text='generated polynomials, initial values, messages and split points against the defining bitwise division; sampling, not proof',
-    level_note='trusts the bitwise reference in exec/C17.cc; messages <= 300 bytes',
+    level_note='trusts the bitwise reference in exec/C17.cc; messages <= 300 bytes, plus one of 2^32 + d bytes per routine judged by at-once vs pieces only',
 )
 PROPS['C18'] = dict(
     level='exploration',
@@ -301,8 +301,8 @@ PROPS['C14'] = dict(
           'thorough': dict(rc_procs=6, rc_cases=300000, fuzz_procs=6, fuzz_secs=240, enum_shards=8, enum_tier=1)},
     has_enum=True,
     tolerances={'boundary_state': '1e-9*scale', 'continuity': '1e-7*scale', 'limits': '1e-9 relative', 'derivative_link': '1e-5*scale + 64u*scale/h (+ jm h^2 for cubic segments)'},
-    technique='property-based testing with validity predicates over generated feasible requests (boundary states, limits, continuity at all phase boundaries, derivative consistency); rapidcheck tapes + libFuzzer',
-    level_text='generated requests covering all planning branches, judged by predicates with stated tolerances; sampling, not proof',
+    technique='property-based testing with validity predicates over generated feasible requests (boundary states, limits, continuity at all phase boundaries, derivative consistency); rapidcheck tapes + libFuzzer + exhaustive enumeration of the bell requests on small rational lattices',
+    level_text='generated requests covering all planning branches plus every bell request on the enumerated lattices, judged by predicates with stated tolerances; sampling outside the lattices, not proof',
     level_note='trusts the feasibility inequality and tolerance constants in exec/C14.cc; limits in [0.05, 200], distances in [1e-3, 1e4]',
 )
 
